@@ -63,6 +63,7 @@ def param_tokens(ex, r):
         out.append([b"text:\nmulti\nline\n."])       # a string may always be written as a multi-line literal
     if "stringlist" in types:
         out.append([b"[", b'"p"', b",", b'"q"', b"]"])
+        out.append([b"[", b'"p"', b",", b'"q"', b",", b'"p"', b"]"])      # the last item repeats an earlier one
     if "number" in types:
         out.append([b"7"])
     return out
@@ -78,7 +79,7 @@ def req_tokens(a):
     if "number" in a["type"]:
         return [b"42"]
     if "stringlist" in a["type"]:
-        return [b"[", b'"x"', b",", b'"y"', b"]"]
+        return [b"[", b'"x"', b",", b'"y"', b"]"] if _RT[0] % 3 else [b"[", b'"x"', b",", b'"y"', b",", b'"x"', b"]"]
     return [b'"x"']
 
 
